@@ -221,11 +221,12 @@ impl Drop for SimIo {
 pub struct Network {
     sleep: Pin<Box<tokio::time::Sleep>>,
     explicit_ix: usize,
+    planned_chunks: usize,
 }
 
 impl Network {
     pub fn new() -> Network {
-        Network { sleep: Box::pin(tokio::time::sleep(std::time::Duration::from_secs(0))), explicit_ix: 0 }
+        Network { sleep: Box::pin(tokio::time::sleep(std::time::Duration::from_secs(0))), explicit_ix: 0, planned_chunks: 0 }
     }
 }
 
@@ -277,7 +278,11 @@ impl Future for Network {
                         }
                     };
                     let size = size.min(remaining).max(1);
-                    let delay = if w.knobs.net_delay_max_ms > 0 {
+                    let explicit_gap = matches!(&w.knobs.chunking, Chunking::Explicit(_)) && this.planned_chunks > 0;
+                    this.planned_chunks += 1;
+                    let delay = if explicit_gap {
+                        1
+                    } else if w.knobs.net_delay_max_ms > 0 {
                         w.sched.draw(w.knobs.net_delay_max_ms as u32 + 1) as u64
                     } else {
                         0
